@@ -5,7 +5,7 @@ import json, os, pathlib, shutil, subprocess, sys, tempfile
 from concurrent.futures import ThreadPoolExecutor
 VERIF = pathlib.Path(__file__).resolve().parent.parent
 props = sorted(p.stem.upper() for p in (VERIF / 'sa' / 'props').glob('c*.py'))
-roots = [pathlib.Path(a) for a in sys.argv[1:]] or [VERIF / 'seeded', pathlib.Path('/tmp/seeds')]
+roots = [pathlib.Path(a) for a in sys.argv[1:] if not a.startswith('--')] or [VERIF / 'seeded', pathlib.Path('/tmp/seeds')]
 seeds = []
 for r in roots:
     seeds += sorted(r.glob('*/patch.diff')) + sorted(r.glob('*/*/patch.diff'))
@@ -27,15 +27,24 @@ def run(patch):
     finally:
         shutil.rmtree(tmp, ignore_errors=True)
 
-with ThreadPoolExecutor(12) as ex:
+quiet = '--quiet' in sys.argv
+roots = [r for r in roots if not str(r).startswith('--')]
+seeds = [s for s in seeds if not str(s).startswith('--')]
+n_alarm = n_total = 0
+with ThreadPoolExecutor(16) as ex:
     for patch, st, out in ex.map(run, seeds):
+        n_total += 1
+        n_alarm += bool(out) or st != 'ok'
+        if quiet and not out and st == 'ok':
+            continue
         name = '/'.join(patch.parts[-3:-1])
         meta = {}
         try: meta = json.load(open(patch.parent / 'meta.json'))
         except Exception: pass
         print('== %s [%s] %s' % (name, meta.get('property', '?'), (meta.get('summary') or '')[:110]))
         if st != 'ok': print('   ', st); continue
-        if not out: print('    MISSED by all of', ','.join(props))
+        if not out: print('    SILENT: no check reports anything')
         for p, (rc, lines) in out.items():
             print('    %s exit=%d' % (p, rc))
             for l in lines: print('       ', l)
+print('%d patches, %d with at least one report' % (n_total, n_alarm))
